@@ -257,6 +257,19 @@ example : stamp (reach 0 (some 100) [.store 1000 k₁ [1] [] 1010]) (.store 1000
   decide
 example : Inv (reach 2 none h₁) := inv_reachable 2 none h₁
 
+/-! ## the configured limit is the limit in play (`cache_pool`, settings → factory arguments)
+
+`Gen.poolThreadLimit` / `Gen.poolProcessLimit` are transcribed by the translator from `src/cache_pool.cpp`
+(which key is read, its default when absent, any substitution applied afterwards). -/
+
+/-- what the application configures as `cache.limit` is exactly the limit the cache is built with,
+for both back-ends — in particular `0` stays `0` = "no limit on the number of entries" -/
+theorem configured_limit_is_effective_limit (n : Nat) (mem : Option Nat) :
+    Gen.poolThreadLimit (some n) = n ∧ Gen.poolProcessLimit (some n) mem = n := ⟨rfl, rfl⟩
+
+/-- hence with `cache.limit = 0` (thread back-end) no size limit is in play and `live_entry_always_found` applies -/
+theorem configured_zero_is_unlimited : (State.init (Gen.poolThreadLimit (some 0)) none).limit = 0 := rfl
+
 /-! ## trigger recording through `cache_interface` (model `Iface.lean`)
 
 `recorded st op` are the triggers an operation records for the page under construction:
